@@ -20,6 +20,8 @@ def gross_sum(t):
 
 
 def check(ctx):
+    from ..lib import discarded_results
+    ctx.sub(discarded_results, 'C11.S2', ('qstrader/portcon/order_sizer/', 'qstrader/broker/fee_model/'), 'each asset is sized with its own allocation, fee estimate and price')
     # ---- S1 scaling
     qn = CN + '._normalise_weights'
     fn = ctx.fn(qn)
@@ -76,7 +78,11 @@ def check(ctx):
                 continue
             tag = cond_str(bp)[:50]
             q, fee, price = b['quantity'], b['fee'], b['price']
-            if not ctx.require(q is not None and len(fee) == 1 and len(price) == 1, 'C11.S2', 'each asset gets one quantity from one fee estimate and one price', lp.site,
+            if q is None or not fee or not price:
+                ctx.undecided('C11.S2', 'each asset gets one quantity from one fee estimate and one price', lp.site,
+                              '%s fee calls, %s price lookups on the sizing path' % (len(fee), len(price)))
+                continue
+            if not ctx.require(len(fee) == 1 and len(price) == 1, 'C11.S2', 'each asset gets one quantity from one fee estimate and one price', lp.site,
                                key='C11.S2|shape'):
                 continue
             fe, pe = fee[0], price[0]
